@@ -26,3 +26,60 @@ def gen_ops(man):
 def spec_run(man, tier, seed, sites=None):
     n = 40 if tier == 'quick' else 600
     return S.spec_compare(man, SPEC, n, seed, sites)
+
+
+def extra_run(man, tier, seed):
+    """implementation against the definition where no generated model / Spec op reaches:
+    (a) Skellam (Bessel-based pmf, hand-modelled cache): ln_f vs the Poisson-difference convolution, both tails;
+    (b) location-scale laws at EXTREME but valid scales (1e-170 … 1e160) at points loc + t·scale: the log-density is
+        ln g(t) - ln scale for the standard density g, whatever the scale (no intermediate may leave the binary64 range)."""
+    import math, random
+    from checklib.core import enc, run_pair, tok_to_float
+    rng = random.Random(seed * 61 + 2)
+    n = 12 if tier == 'quick' else 300
+    failures, lines, want = [], [], []
+
+    def lnpois(k, mu):
+        return k * math.log(mu) - mu - math.lgamma(k + 1.0)
+
+    def skellam(x, m1, m2):
+        ks = range(max(0, -x), max(0, -x) + 400)
+        ts = [lnpois(k + x, m1) + lnpois(k, m2) for k in ks]
+        mx = max(ts)
+        return mx + math.log(math.fsum(math.exp(t - mx) for t in ts))
+    if 'Skellam.ln_f_int' in man['defs']:
+        for _ in range(n * 3):
+            m1, m2 = [rng.choice([0.1, 1.0, 2.0, 5.3, 6.5]) if rng.random() < 0.4 else math.exp(rng.uniform(-2.5, 3.5)) for _ in range(2)]
+            x = rng.choice([-1, 1]) * rng.choice([0, 1, 2, 3, 5, 8, 11, 15, 25, 40, 60])
+            lines.append(f'Skellam.ln_f_int i32 {enc((m1, m2))} {x}')
+            want.append(('Skellam.ln_f_int', skellam(x, m1, m2), 1e-8))
+    STD = {  # type -> (loc field, scale field, other fields fixed, standard log-density of t)
+        'Gaussian': ('mu', 'sigma', {}, lambda t: -0.5 * t * t - 0.5 * math.log(2 * math.pi)),
+        'Cauchy': ('loc', 'scale', {}, lambda t: -math.log(math.pi) - math.log1p(t * t)),
+        'Laplace': ('mu', 'b', {}, lambda t: -abs(t) - math.log(2.0)),
+    }
+    for ty, (lf, sf, other, g) in STD.items():
+        op = f'{ty}.ln_f_real'
+        if op not in man['defs'] or man['defs'][op].get('stub'):
+            continue
+        fields = [f for f, t in man['structs'][ty]]
+        for _ in range(n):
+            scale = 10.0 ** rng.choice([-170, -161, -150, -100, -20, 20, 100, 150, 160])
+            loc = rng.choice([0.0, 1.0, -3.5, scale, -scale * 7])
+            t = rng.choice([0.0, 0.5, -0.5, 1.0, -3.0, 6.0])
+            x = loc + t * scale
+            if not math.isfinite(x) or (scale < 1 and abs(loc) > 0 and abs(t * scale) < abs(loc) * 1e-13 and t != 0.0):
+                continue              # x would round to loc: the point does not exist in binary64
+            teff = (x - loc) / scale
+            pv = tuple({lf: loc, sf: scale}.get(f, other.get(f)) for f in fields)
+            lines.append(f'{op} f64 {enc(pv)} {enc(x)}')
+            want.append((op, g(teff) - math.log(scale), 1e-9))
+    impl, _ = run_pair(lines, want_model=False)
+    for l, a, (site, w, rel) in zip(lines, impl, want):
+        if a in ('NOOP',) or a.startswith('BAD'):
+            continue
+        v = tok_to_float(a) if a.startswith('x') else float('nan')
+        if not (abs(v - w) <= rel * max(1.0, abs(w))):
+            failures.append({'site': site, 'case': l, 'impl': a, 'expected': repr(w), 'observed': 'panic' if a == 'PANIC' else ('nan' if v != v else 'value'),
+                             'detail': f'{v!r} vs definition {w!r}'})
+    return {'obligations': [], 'failures': failures, 'stats': {'evaluations': len(lines), 'distinct_nontrivial': len(set(lines))}, 'samples': lines[:2]}
